@@ -450,6 +450,23 @@ class MarkFeatureWriter(BaseFeatureWriter):
         newDefs = []
         for markAnchorName, glyphAnchorPairs in sorted(markGlyphSets.items()):
             className = ast.makeFeaClassName(classPrefix + markAnchorName)
+            existing = currentClasses.get(className)
+            if existing is not None and any(
+                glyphName in existing.glyphs
+                and not self._anchorsAreEqual(
+                    ast.Anchor(
+                        x=otRoundIgnoringVariable(anchor.x),
+                        y=otRoundIgnoringVariable(anchor.y),
+                    ),
+                    existing.glyphs[glyphName].anchor,
+                )
+                for glyphName, anchor in glyphAnchorPairs.items()
+            ):
+                # the feature file already defines this class with a different
+                # anchor for one of our marks: define *all* the marks of this anchor
+                # in a new uniquely named class, because the generated lookups
+                # reference a single class per anchor name
+                className = ast.makeFeaClassName(className, currentClasses)
             for glyphName, anchor in glyphAnchorPairs.items():
                 mcd = self._defineMarkClass(
                     glyphName, anchor.x, anchor.y, className, currentClasses
